@@ -462,9 +462,10 @@ impl Check for Enforcement {
                 if problems.is_empty() && flags.direction == fol::Direction::Universal {
                     return Outcome::fail("accepted-without-problems", format!("C11: an accepted task produced no problems\n{description}"));
                 }
-                Outcome::pass(kind != "none", key).label(format!("breakage={kind}")).label("accepted")
+                Outcome::pass(kind != "none", key).label(format!("breakage={kind}")).label("accepted").readable(description.clone())
             }
             (Err((variant, _)), false) => Outcome::pass(true, key)
+                .readable(description.clone())
                 .label(format!("breakage={kind}"))
                 .label(format!("refused:{variant}")),
             (Ok((problems, _)), false) => Outcome::fail(
